@@ -225,6 +225,17 @@ def refusal_cases(req):
             'newer-format': gzip.compress(json.dumps(newer).encode()),
         }
         calls = []
+        if 'json-value-is' in req.get('label', ''):
+            # valid gzip + JSON written by this software, but a field of the wrong shape (only for
+            # the obligations about the shape of what read_immutable hands on)
+            def shaped(**kw):
+                return gzip.compress(json.dumps(dict(data, **kw)).encode())
+            calls.append(('wrong-shape createdDirs=[null]/clean', shaped(createdDirs=[None]),
+                          lambda lg: FileBuilder.clean(cache, 'name')))
+            calls.append(('wrong-shape funcVersions=[]', shaped(funcVersions=[]),
+                          lambda lg: FileBuilder.build(cache, 'name', basic_build, root, lg)))
+            calls.append(('wrong-shape createdDirs=[5]', shaped(createdDirs=[5]),
+                          lambda lg: FileBuilder.build(cache, 'name', basic_build, root, lg)))
         for cname, blob in corruptions.items():
             calls.append((cname, blob, lambda lg: FileBuilder.build(cache, 'name', basic_build,
                                                                     root, lg)))
